@@ -183,6 +183,8 @@ def run(tier):
     P.hooks.append(hook)
     P.run()
     collisions(R, jsonschema)
+    from harness import probes
+    probes.discriminator_schema_probe(R, {'refs'})
     T1 = "univ * dopts * list nat * bool * option constraints * ty * (js * defs)"
     bad, errs = core.run_coq_shards("C17_refs", P.header() + HEADER_EXTRA, scases,
                                     "(fun c : " + T1 + " => let '(u, o, un, ar, root, t, impl) := c in schema_case_u u o un ar root t impl)",
@@ -197,7 +199,9 @@ def run(tier):
         rule="C06 universes with type_name overrides (string, factory, None) x types of depth <= 3 x all_refs x aliaser x "
              "additional_properties x root schema, deserialization and serialization schemas and definitions_schema in the 5 "
              "versions: termination, declared $schema and meta-schema validity, every $ref resolves under the version's prefix, "
-             "definitions_schema = inline definitions, extraction rule = model; plus name collisions")
+             "definitions_schema = inline definitions, extraction rule = model; plus name collisions, and discriminated unions "
+             "(annotated and class-level, parent and children as roots): generation succeeds, meta-schema, refs resolve, no "
+             "definition references itself on the same instance")
 
 
 def collisions(R, jsonschema):
